@@ -39,6 +39,9 @@ def main(argv):
                                                          'mc': ['api', 'Claim', ['Ok'], 'Release']}}})
     cases += SR.prefix_name_cases()       # port names that are prefixes of each other around the multi-client port
     cases += SR.mixed_semantics_cases()   # semantics alternating in declaration order; an injected port that needs no semantics
+    suspects, breadth = SR.leg_a_suspects(rng, 100 if tier == 'quick' else 1000, want=None)
+    rep.extra['cases_compared_with_the_model_only'] = breadth
+    cases += suspects
     io, mo, plans = SR.tie_and_plans(cases)
     wd = legb.Workdir()
     nv = 0
